@@ -523,7 +523,10 @@ def sqrt(u) -> T:
 
 
 def cbrt(u) -> T:
-    return _mk("app", (const(u),), "cbrt")
+    u = const(u)
+    if u.op == "const" and u.val in (0, 1):
+        return u
+    return _mk("app", (u,), "cbrt")
 
 
 def Phi(u) -> T:
